@@ -24,17 +24,18 @@ import (
 )
 
 type Case struct {
-	Pieces []gen.Piece `json:"pieces"`
-	Sizes  gen.Sizes   `json:"sizes"`
-	Tiling []int       `json:"tiling,omitempty"` // arbitrary tiling; nil = content-defined (reference chunker)
-	N      int         `json:"n"`
-	Mod    string      `json:"mod"` // none flip trunc extend swap overwrite
-	A      int         `json:"a"`
-	B      int         `json:"b"`
-	Bit    int         `json:"bit"`
-	CLI    bool        `json:"cli,omitempty"` // also run `desync verify-index -n N` (needs $VERIF_DESYNC_BIN)
-	SHA256 bool        `json:"sha256,omitempty"` // index made with, and verification configured for, the SHA256 digest
-	Cancel int         `json:"cancel,omitempty"` // 0: never; -1: context cancelled before the call; k>0: cancelled at the k-th hook hit (feed/batch sites)
+	Pieces   []gen.Piece `json:"pieces"`
+	Sizes    gen.Sizes   `json:"sizes"`
+	Tiling   []int       `json:"tiling,omitempty"` // arbitrary tiling; nil = content-defined (reference chunker)
+	N        int         `json:"n"`
+	Mod      string      `json:"mod"` // none flip trunc extend swap overwrite
+	A        int         `json:"a"`
+	B        int         `json:"b"`
+	Bit      int         `json:"bit"`
+	CLI      bool        `json:"cli,omitempty"`       // also run `desync verify-index -n N` (needs $VERIF_DESYNC_BIN)
+	SHA256   bool        `json:"sha256,omitempty"`    // index made with, and verification configured for, the SHA256 digest
+	FileKind string      `json:"file_kind,omitempty"` // "" plain | sparse (zero blocks left as holes) | symlink (the path given is a link to the file) | sparse+symlink
+	Cancel   int         `json:"cancel,omitempty"`    // 0: never; -1: context cancelled before the call; k>0: cancelled at the k-th hook hit (feed/batch sites)
 }
 
 func batchOf(chunks, n int) int { return chunks / (n * 10) }
@@ -82,6 +83,17 @@ func genCase(t *rapid.T) Case {
 	c.B = rapid.IntRange(0, 1<<20).Draw(t, "b")
 	c.Bit = rapid.IntRange(0, 7).Draw(t, "bit")
 	c.SHA256 = rapid.IntRange(0, 3).Draw(t, "sha256") == 0
+	c.FileKind = rapid.SampledFrom([]string{"", "", "", "", "sparse", "symlink", "sparse+symlink"}).Draw(t, "filekind")
+	if rapid.IntRange(0, 9).Draw(t, "nullimage") == 0 {
+		// a disk image: data, runs of null chunks several blocks long, data — stored sparsely
+		c.Tiling = nil
+		c.Sizes = gen.Sizes{Min: 4096, Avg: 8192, Max: 16384}
+		c.Pieces = []gen.Piece{{Kind: "rand", Len: rapid.IntRange(1, 40000).Draw(t, "nipre"), Seed: rapid.Uint64().Draw(t, "nis1")},
+			{Kind: "zero", Len: 16384*rapid.IntRange(2, 6).Draw(t, "nik") + rapid.IntRange(0, 5000).Draw(t, "nid")},
+			{Kind: "rand", Len: rapid.IntRange(1, 40000).Draw(t, "nipost"), Seed: rapid.Uint64().Draw(t, "nis2")}}
+		c.FileKind = rapid.SampledFrom([]string{"sparse", "sparse", "sparse+symlink", ""}).Draw(t, "nikind")
+		c.Mod = rapid.SampledFrom([]string{"flipnull", "flipnull", "flipnull", "none", "extend", "trunc"}).Draw(t, "nimod")
+	}
 	if rapid.IntRange(0, 3).Draw(t, "cancel?") == 0 {
 		c.Cancel = -1
 		if rapid.Bool().Draw(t, "cancelmid") {
@@ -177,6 +189,30 @@ func run(c Case) (o hx.Outcome) {
 			pos = int(s.Start) + (c.B/3)%int(s.Len)
 		}
 		file[pos] ^= 1 << uint(c.Bit)
+	case "flipnull":
+		// one bit inside a null chunk (all zeros, max size), anywhere in it, mostly beyond its first block
+		var nulls []int
+		for i, sp := range spans {
+			if sp.Len == c.Sizes.Max && allZero(blob[sp.Start:sp.Start+sp.Len]) {
+				nulls = append(nulls, i)
+			}
+		}
+		if len(nulls) == 0 {
+			mod = "none"
+			break
+		}
+		ci = nulls[c.A%len(nulls)]
+		sp := spans[ci]
+		off := c.B % int(sp.Len)
+		if sp.Len > 4096 && c.B%4 != 0 {
+			off = 4096 + (c.B/4)%int(sp.Len-4096)
+		}
+		pos = int(sp.Start) + off
+		file[pos] ^= 1 << uint(c.Bit)
+		o.Class("damage-in-null-chunk")
+		if off >= 4096 {
+			o.Class("damage-in-null-chunk:beyond-first-block")
+		}
 	case "trunc":
 		d := 1 + c.B%16
 		if c.B%5 == 0 && nch > 0 {
@@ -237,7 +273,7 @@ func run(c Case) (o hx.Outcome) {
 
 	dir := hx.Scratch("c17")
 	defer os.RemoveAll(dir)
-	path := dx.WriteFile(dir, "blob", file)
+	path := writeKind(dir, file, c.FileKind, &o)
 	ctx, cancelCtx := context.WithCancel(context.Background())
 	if c.Cancel < 0 {
 		cancelCtx()
@@ -348,13 +384,65 @@ func run(c Case) (o hx.Outcome) {
 var spec = &hx.Spec[Case]{
 	ID:    "C17",
 	Level: "exploration",
-	Rule: "cases = (blob, index by reference chunker or arbitrary 1..8-byte tiling, n in 1..64, one modification: none/flip one bit/truncate/extend/swap equal-size chunks/overwrite chunk; digest SHA512-256 or SHA256; context never cancelled, cancelled before the call or at the k-th feed/batch hook hit); " +
+	Rule: "cases = (blob, index by reference chunker or arbitrary 1..8-byte tiling, n in 1..64, one modification: none/flip one bit/flip a bit inside a null chunk/truncate/extend/swap equal-size chunks/overwrite chunk; file stored plain or sparse (holes) and given by its path or through a symlink; digest SHA512-256 or SHA256; context never cancelled, cancelled before the call or at the k-th feed/batch hook hit); " +
 		"non-trivial = modified file whose damaged chunk is first/last of a verification batch (or last chunk), or an unmodified file with chunks/(10n) >= 1; distinct by (length, chunks, n, mod, chunk, position)",
 	Assumptions: []string{"oracle: VerifyIndex==nil iff file bytes equal the blob (direct comparison)", "chunk IDs computed with crypto/sha512 directly", "files are regular files on the scratch filesystem"},
-	Required:    []string{"mod:none", "mod:flip", "mod:trunc", "mod:extend", "mod:swap", "mod:overwrite", "batch>=1", "damage-at-batch-boundary", "file==blob", "file!=blob", "digest:sha256", "cancel:before-call", "cancel:mid-run", "cancel:interrupted", "cancel:mismatch-not-accepted"},
+	Required:    []string{"mod:none", "mod:flip", "mod:trunc", "mod:extend", "mod:swap", "mod:overwrite", "batch>=1", "damage-at-batch-boundary", "file==blob", "file!=blob", "digest:sha256", "file:sparse:has-holes", "file:via-symlink", "damage-in-null-chunk:beyond-first-block", "cancel:before-call", "cancel:mid-run", "cancel:interrupted", "cancel:mismatch-not-accepted"},
 	Gen:         genCase,
 	Run:         run,
 	Watchdog:    hx.Pick(30*time.Second, 120*time.Second), // "accepts iff" includes returning at all
+}
+
+func allZero(b []byte) bool {
+	for _, x := range b {
+		if x != 0 {
+			return false
+		}
+	}
+	return true
+}
+
+// writeKind stores the file content as a plain file, as a sparse file (blocks of zeros are left
+// as holes) and/or hands out a symbolic link to it instead of its path.
+func writeKind(dir string, content []byte, kind string, o *hx.Outcome) string {
+	path := filepath.Join(dir, "blob")
+	if strings.HasPrefix(kind, "sparse") {
+		f, err := os.Create(path)
+		if err != nil {
+			panic(err)
+		}
+		f.Truncate(int64(len(content)))
+		holes := 0
+		for off := 0; off < len(content); off += 4096 {
+			end := off + 4096
+			if end > len(content) {
+				end = len(content)
+			}
+			if allZero(content[off:end]) {
+				holes++
+				continue
+			}
+			if _, err := f.WriteAt(content[off:end], int64(off)); err != nil {
+				panic(err)
+			}
+		}
+		f.Close()
+		o.Class("file:sparse")
+		if holes > 0 {
+			o.Class("file:sparse:has-holes")
+		}
+	} else {
+		dx.WriteFile(dir, "blob", content)
+	}
+	if strings.HasSuffix(kind, "symlink") {
+		link := filepath.Join(dir, "blob.link")
+		if err := os.Symlink("blob", link); err != nil {
+			panic(err)
+		}
+		o.Class("file:via-symlink")
+		return link
+	}
+	return path
 }
 
 func TestMain(m *testing.M) { hx.Main(m) }
